@@ -187,7 +187,6 @@ func affine(v ssa.Value, depth int) (coef int, ok bool) {
 
 func (c *Ctx) ruleI2(f *ssa.Function) {
 	fk := fnKey(f)
-	recv := f.Params[0]
 	// writes to a map held in a field of the receiver
 	type write struct {
 		in  ssa.Instruction
@@ -200,7 +199,7 @@ func (c *Ctx) ruleI2(f *ssa.Function) {
 			return false
 		}
 		fa, ok := u.X.(*ssa.FieldAddr)
-		return ok && fa.X == ssa.Value(recv)
+		return ok && isRecv(f, fa.X)
 	}
 	var writes []write
 	eachInstr(f, func(in ssa.Instruction) {
@@ -529,7 +528,24 @@ func isRecvMap(f *ssa.Function, m ssa.Value) bool {
 		return false
 	}
 	fa, ok := u.X.(*ssa.FieldAddr)
-	return ok && len(f.Params) > 0 && fa.X == ssa.Value(f.Params[0])
+	return ok && isRecv(f, fa.X)
+}
+
+// isRecv: v is the receiver parameter of f, directly or reloaded from the cell it was
+// spilled into (go/ssa spills parameters captured by closures).
+func isRecv(f *ssa.Function, v ssa.Value) bool {
+	if len(f.Params) == 0 || f.Signature.Recv() == nil {
+		return false
+	}
+	if v == ssa.Value(f.Params[0]) {
+		return true
+	}
+	if u, ok := v.(*ssa.UnOp); ok && u.Op == token.MUL {
+		if a, ok := u.X.(*ssa.Alloc); ok {
+			return uniqueStore(a) == ssa.Value(f.Params[0])
+		}
+	}
+	return false
 }
 
 // ---------------------------------------------------------------------------
